@@ -7,6 +7,18 @@ BASE_CMD = ("cd /repo && /venv/bin/python -m pytest -ra -q -p no:cacheprovider -
 TRUST = ("Trusted: CPython, numpy, the reference model in pmc/ref.py (exact rationals, self-tested against the "
          "documentation's worked examples), the enumerators' bounds as stated in the evidence file.")
 CHECKS = {
+ 'C18': dict(
+    technique="exhaustive enumeration of one scenario set executed under every enumerated storage configuration in separate processes; differential oracle against the shipped configuration",
+    text="~2 100 (quick) / ~20 000 (thorough) scenarios (every single E1 operation, every C03 boundary request away from exact ties, every program of <= 2/3 steps with all tracking queries, every 21st/7th C05/C11/C12 specification) "
+         "under 7 / 18 configurations (mol..nmol x L..nL incl. unprefixed and unequal prefixes, internal precision 8 / 12): identical decisions, answers in user units equal within rounding (1.5 M numbers compared per quick run).",
+    note="Amounts near the resolution of the coarsest setting and requests exactly at a boundary are excluded; precision 8 is compared coarsely ('within rounding'). " + TRUST,
+    ref="DESIGN.md section 4 C18"),
+ 'C19': dict(
+    technique="exhaustive enumeration of magnitudes x units for the rescaling helpers, and of operations / recipe programs for instruction texts; token oracle against the true amounts from the reference model",
+    text="Rescaling helpers on {1, 2.5, 9.99} x 10^e (e = -12..6) x signs x units / object kinds; instruction text of ~430 direct operations (sources with liquid / solids only / enzymes only, quantities 1e-9..1 in L, g, mol, U, whole-content transfers, dilute, fill_to, "
+         "create_solution(_from), constructor) and of the last step of every program of <= 2/3 steps: every '<number> <unit>[ of <name>]' token must be a true amount of the operation at its displayed precision.",
+    note="Lines without an amount token are not judged; the candidate set of true amounts is generous, so only factor-level errors are reported. " + TRUST,
+    ref="DESIGN.md section 4 C19"),
  'C09': dict(
     technique="explicit-state exploration over recipe programs x stage layouts; oracle = independent per-step ledger built from prefix bakes (reference model), per-step accounting + stage arithmetic",
     text="Every successfully baking program of <= 3/4 steps (8 143 / ~250 000) x 7-11 stage layouts (incl. an open stage at bake and refused stage calls) x every substance x destination sets x timeframes x units: "
